@@ -1229,7 +1229,12 @@ struct ical_parser_s {
 	size_t bix;
 
 	size_t six;
+#if defined ECHSE_VERIF && defined ECHSE_VERIF_STASH
+	/* verification hook: a smaller line stash, all users go by sizeof */
+	char stash[ECHSE_VERIF_STASH];
+#else
 	char stash[1024U];
+#endif
 };
 
 #define ICAL_EOP	((struct ical_vevent_s*)0x1U)
